@@ -1086,17 +1086,29 @@ static int vnadata_save_common(vnadata_t *vdp, FILE *fp, const char *filename,
      */
     {
 	bool changed = false;
+	bool fixed_up[vdip->vdi_format_count > 0 ? vdip->vdi_format_count : 1];
 
 	for (int i = 0; i < vdip->vdi_format_count; ++i) {
 	    vnadata_format_descriptor_t *vfdp = &vdip->vdi_format_vector[i];
 
+	    fixed_up[i] = false;
 	    if (vfdp->vfd_parameter == VPT_UNDEF) {
 		vfdp->vfd_parameter = type;
+		fixed_up[i] = true;
 		changed = true;
 	    }
 	}
 	if (changed) {
 	    if (_vnadata_update_format_string(vdip) == -1) {
+		/*
+		 * Put the descriptors back, or a later save would find
+		 * nothing to fix up and leave the format string stale.
+		 */
+		for (int i = 0; i < vdip->vdi_format_count; ++i) {
+		    if (fixed_up[i]) {
+			vdip->vdi_format_vector[i].vfd_parameter = VPT_UNDEF;
+		    }
+		}
 		goto out;
 	    }
 	}
